@@ -207,3 +207,37 @@ Proof.
   intros Hd H Hc Hk. cbn [on_merge dispatch is_funck is_listk] in H.
   destruct (comp_merge_frame _ _ _ _ _ _ _ _ _ _ _ _ _ Hd H Hc Hk) as (f' & ch' & c' & -> & E & HS). exists c'. cbn [get_child is_listk]. auto.
 Qed.
+
+(* ---------- sibling independence: what a key holds after the merge depends only on what the two mappings hold at that key ---------- *)
+Lemma same_explicit_sym a b : same_explicit a b -> same_explicit b a.
+Proof. unfold same_explicit. intuition congruence. Qed.
+
+Lemma Sim_sym a : forall b, Sim a b -> Sim b a.
+Proof.
+  induction a as [k f v|k f x ch IH] using node_ind'; intros b H.
+  - inversion H; subst. constructor. now apply same_explicit_sym.
+  - inversion H as [|? ? fb ? ? chb Hse HF]; subst. constructor; [now apply same_explicit_sym|].
+    clear H Hse. induction HF as [|a b r r' [Hk Hs] HF' IHF]; constructor.
+    + inversion IH as [|? ? Ha Hr]; subst. split; [congruence|]. apply Ha. exact Hs.
+    + inversion IH as [|? ? Ha Hr]; subst. apply IHF. exact Hr.
+Qed.
+
+(* two merges of mappings that agree on what they hold at k - whatever their other keys, their own flags, their position in the tree -
+   leave Sim nodes at k *)
+Theorem sibling_independent fuel p p' fs xs chs fo xo cho r w fs' xs' chs' fo' xo' cho' r' w' k v c0 :
+  delete (Comp CDict fo xo cho) = false -> NoDup (map fst cho) -> delete (Comp CDict fo' xo' cho') = false -> NoDup (map fst cho') ->
+  on_merge [] (S fuel) p (Comp CDict fs xs chs) (Comp CDict fo xo cho) = Ok (r, w) ->
+  on_merge [] (S fuel) p' (Comp CDict fs' xs' chs') (Comp CDict fo' xo' cho') = Ok (r', w') ->
+  aget k chs = Some c0 -> aget k cho = Some v -> aget k chs' = Some c0 -> aget k cho' = Some v ->
+  is_comp c0 = true -> explicit_delete v = false ->
+  exists c c', get_child r k = Some c /\ get_child r' k = Some c' /\ Sim c c'.
+Proof.
+  intros Hd Hnd Hd' Hnd' H H' Hc Hk Hc' Hk' Hcomp Hed.
+  cbn [on_merge dispatch is_funck is_listk] in H, H'.
+  destruct (comp_merge_hit _ _ _ _ _ _ _ _ _ _ _ _ _ Hd Hnd H Hc Hk Hcomp Hed) as (n & w0 & f1 & ch1 & c1 & Er & -> & Ec & HS).
+  destruct (comp_merge_hit _ _ _ _ _ _ _ _ _ _ _ _ _ Hd' Hnd' H' Hc' Hk' Hcomp Hed) as (n' & w0' & f2 & ch2 & c2 & Er' & -> & Ec' & HS').
+  assert (En : n = n').
+  { pose proof (on_merge_path_irrelevant fuel (p ++ [k]) (p' ++ [k]) c0 v) as E. rewrite Er, Er' in E. cbn in E. congruence. }
+  subst n'. exists c1, c2. cbn [get_child is_listk]. repeat split; auto.
+  eapply Sim_trans; [apply Sim_sym; exact HS|exact HS'].
+Qed.
